@@ -146,6 +146,9 @@ XalanOutputStream::transcode(
     }
     else
     {
+        // No supported encoding needs this many bytes for one character.
+        enum { eMinimumTranscodingRoom = 32 };
+
         bool    fDone = false;
 
         // Keep track of the total bytes we've added to the
@@ -196,6 +199,23 @@ XalanOutputStream::transcode(
                             theExceptionBuffer,
                             0);
                 }
+            }
+
+            // If the transcoder consumed nothing although there was room
+            // for any single character, it never will, for instance when
+            // the buffer ends with the first half of a surrogate pair.
+            // Growing the destination again would loop until memory is
+            // exhausted, so report the failure, whatever the setting of
+            // m_throwTranscodeException.
+            if (theSourceBytesEaten == 0 &&
+                theTargetBytesEaten == 0 &&
+                theTargetSize >= eMinimumTranscodingRoom)
+            {
+                XalanDOMString  theExceptionBuffer(theDestination.getMemoryManager());
+
+                throw TranscodingException(
+                        theExceptionBuffer,
+                        0);
             }
 
             theTotalBytesFilled += theTargetBytesEaten;
